@@ -244,21 +244,21 @@ def enc : Ty → Val → J
     implementation itself is shadowed by the helper's -/
 def encImpl : Impls → String → Val → J
   | .nil, _, _ => .null
-  | .cons n t rest, tn, v =>
-    if n == tn then
-      match t, v with
-      | .struct fs, .struct vs => .obj (("__typename", .str tn) :: (winners (encAll fs vs 0)).filter (fun kv => kv.1 != "__typename"))
-      | _, _ => .null
-    else encImpl rest tn v
+  | .cons n t rest, tn, v => if n == tn then encHead t tn v else encImpl rest tn v
+/-- the implementation chosen by the type switch -/
+def encHead : Ty → String → Val → J
+  | .struct fs, tn, .struct vs => .obj (("__typename", .str tn) :: (winners (encAll fs vs 0)).filter (fun kv => kv.1 != "__typename"))
+  | _, _, _ => .null
 /-- every field of the struct and of the structs embedded in it, with its embedding depth -/
 def encAll : Flds → List Val → Nat → List (Nat × String × J)
   | .cons n emb t rest, v :: vs, d =>
-    (if emb then
-      match t, v with
-      | .struct fs, .struct ws => encAll fs ws (d + 1)
-      | _, _ => []
+    (if emb then encEmb t v (d + 1)
      else if special t then [(d, n, encSpecial t v)]
      else [(d, n, enc t v)]) ++ encAll rest vs d
+  | _, _, _ => []
+/-- the fields an embedded fragment struct contributes -/
+def encEmb : Ty → Val → Nat → List (Nat × String × J)
+  | .struct fs, .struct ws, d => encAll fs ws d
   | _, _, _ => []
 /-- a field marshaled through json.RawMessage: make([]json.RawMessage, len(src)) — a nil slice becomes [] -/
 def encSpecial : Ty → Val → J
@@ -279,11 +279,10 @@ mutual
 /-- JSON names of the fields of a struct and of everything embedded in it -/
 def closureNames : Flds → List String
   | .nil => []
-  | .cons n emb t rest =>
-    (if emb then match t with
-      | .struct fs => closureNames fs
-      | _ => []
-     else [n]) ++ closureNames rest
+  | .cons n emb t rest => (if emb then embNames t else [n]) ++ closureNames rest
+def embNames : Ty → List String
+  | .struct fs => closureNames fs
+  | _ => []
 end
 
 def noFoldTwinsIn (names : List String) : Bool :=
